@@ -621,3 +621,8 @@ CHECKS['C17'].update(text=CHECKS['C17']['text'] + ' NC1: a pointer parameter tha
                      'paths that passed the non-NULL outcome of such a test (per-path branch facts plus equality facts on discriminator fields '
                      'such as cbdata->otype, killed by assignments and by callees that may write them).')
 CHECKS['C11'].update(text=CHECKS['C11']['text'] + ' NC1 (NULL-tested pointer parameters dereferenced only behind the test) over the container units, as under C17.')
+CHECKS['C19'].update(text=CHECKS['C19']['text'] + ' Q5: the string functions of qstring.c write no static variable (results depend on the arguments only).')
+CHECKS['C20'].update(text=CHECKS['C20']['text'] + ' WID3 over qaconf.c/qconfig.c: a count-like quantity (argc, num, len, size) is not stored into an 8/16-bit '
+                     'local or returned through one unless clamped or masked.')
+CHECKS['C02'].update(text=CHECKS['C02']['text'] + ' T6 additionally requires that key bytes the default comparator orders itself are not compared through '
+                     'plain (signed) char; a comparator the evaluator cannot tabulate gives no verdict (exit 2).')
